@@ -1097,13 +1097,31 @@ impl<'a> Model<'a> {
                 body,
             } => {
                 self.report.statements += 1;
-                let a = self.eval_int(from, s.id)?;
-                self.set_int(var, a);
-                let b = self.eval_int(to, s.id)?;
+                // a failing bound: RESUME executes the FOR statement again; what "the
+                // statement after" a FOR that never set up its loop is, nobody says
+                macro_rules! bound {
+                    ($e:expr) => {
+                        match self.eval_header(s, 0, $e)? {
+                            HeaderVal::V(x) => x,
+                            HeaderVal::Enter => {
+                                return Err(Stop::Early(
+                                    "RESUME NEXT after a failing FOR / SELECT CASE line".into(),
+                                ));
+                            }
+                            HeaderVal::Flow(f) => return Ok(Ok(f)),
+                        }
+                    };
+                }
+                // (RESUME starts the statement again; the bounds that were evaluated before
+                // the one that failed are free of side effects, so evaluating only the failed
+                // one again comes to the same)
+                let a = bound!(from);
+                let b = bound!(to);
                 let st = match step {
-                    Some(e) => self.eval_int(e, s.id)?,
+                    Some(e) => bound!(e),
                     None => 1,
                 };
+                self.set_int(var, a);
                 if st == 0 {
                     return Err(Stop::Early("FOR with zero step".into()));
                 }
@@ -1204,7 +1222,15 @@ impl<'a> Model<'a> {
                 else_b,
             } => {
                 self.report.statements += 1;
-                let v = self.eval_int(expr, s.id)?;
+                let v = match self.eval_header(s, 0, expr)? {
+                    HeaderVal::V(x) => x,
+                    HeaderVal::Enter => {
+                        return Err(Stop::Early(
+                            "RESUME NEXT after a failing FOR / SELECT CASE line".into(),
+                        ));
+                    }
+                    HeaderVal::Flow(f) => return Ok(Ok(f)),
+                };
                 for (ci, (specs, b)) in cases.iter().enumerate() {
                     let mut hit = false;
                     for sp in specs {
